@@ -17,7 +17,7 @@ def InRange (d : FmtData) : Prop :=
 
 def wellFormed (c : Call) : Prop :=
   c.level < AWS_LL_COUNT ∧ c.ts ≠ [] ∧ c.ts.length ≤ AWS_DATE_TIME_STR_MAX_LEN ∧ c.tid.length < AWS_THREAD_ID_T_REPR_BUFSZ ∧
-    c.msg.length + c.subject.length < 2147483000
+    c.msg.length + c.subject.length < 2147483000 ∧ c.subjectNull = false
 
 def lineOfCall (c : Call) : Bytes :=
   fullLine { total := defaultTotal c.msg c.subject, level := c.level, subject := some c.subject, msg := c.msg, ts := c.ts, tid := c.tid }
